@@ -171,7 +171,8 @@ def plain(v):
     tv = type(v)
     if tv is int:
         # "integers of any size the interpreter can render as text"
-        return v.bit_length() < 3 * MAXDIG or _renderable(v)
+        lim = sys.get_int_max_str_digits() if hasattr(sys, "get_int_max_str_digits") else 0   # the limit in force NOW
+        return not lim or v.bit_length() < 3 * lim or _renderable(v)
     if tv in PLAIN_SCALARS:
         return True
     if tv is tuple or tv is frozenset:
